@@ -1,6 +1,7 @@
 package main
 
 import (
+	"encoding/base64"
 	"encoding/json"
 	"io"
 	"os"
@@ -16,6 +17,9 @@ type FuzzCase struct {
 	Kind    string `json:"kind"`
 	Profile string `json:"profile"`
 	Data    string `json:"data"`
+	// byte strings that are not valid UTF-8 cannot travel in a JSON string: base64 instead (used when present)
+	ProfileB64 string `json:"profileB64,omitempty"`
+	DataB64    string `json:"dataB64,omitempty"`
 }
 
 var hostileProfiles = []string{
@@ -210,6 +214,33 @@ func genFuzz(g *G, repo string, n int, out io.Writer) {
 		enc.Encode(FuzzCase{Op: "fuzz", Id: id, Entry: []int{0, 1, 2, 3, 4}[id%5], Kind: kind, Profile: p, Data: d})
 		id++
 	}
+	emitRaw := func(kind string, p, d []byte) {
+		c := FuzzCase{Op: "fuzz", Id: id, Entry: []int{0, 1, 2, 3, 4}[id%5], Kind: kind, Profile: okProfile, Data: okData}
+		if p != nil {
+			c.Profile, c.ProfileB64 = "", base64.StdEncoding.EncodeToString(p)
+		}
+		if d != nil {
+			c.Data, c.DataB64 = "", base64.StdEncoding.EncodeToString(d)
+		}
+		enc.Encode(c)
+		id++
+	}
+	// every single byte, and every pair over the bytes that matter to the two decoders, as data and as profile
+	for b := 0; b < 256; b++ {
+		emitRaw("byte1-data", nil, []byte{byte(b)})
+		if b%3 == 0 || b < 0x30 {
+			emitRaw("byte1-profile", []byte{byte(b)}, nil)
+		}
+	}
+	alpha := []byte("{}[]\",:0 t-\n#&*!|>%@`'\\\x00\xff\xc3\xef")
+	for _, a := range alpha {
+		for _, b := range alpha {
+			emitRaw("byte2-data", nil, []byte{a, b})
+			if (int(a)+int(b))%2 == 0 {
+				emitRaw("byte2-profile", []byte{a, b}, nil)
+			}
+		}
+	}
 	for _, p := range hostileProfiles {
 		emit("hostile-profile", p, okData)
 	}
@@ -225,7 +256,8 @@ func genFuzz(g *G, repo string, n int, out io.Writer) {
 		_ = k
 		emit("hostile-sourcemap", okProfile, d)
 	}
-	for id < n {
+	target := id + n // n random cases on top of the fixed families
+	for id < target {
 		p := profiles[g.n(len(profiles))]
 		d := datas[g.n(len(datas))]
 		switch g.n(4) {
@@ -241,9 +273,9 @@ func genFuzz(g *G, repo string, n int, out io.Writer) {
 				raw[i] = byte(g.n(256))
 			}
 			if g.coin(0.5) {
-				emit("raw-profile", string(raw), okData)
+				emitRaw("raw-profile", raw, nil)
 			} else {
-				emit("raw-data", okProfile, string(raw))
+				emitRaw("raw-data", nil, raw)
 			}
 		}
 	}
